@@ -142,12 +142,13 @@ T: Dict[str, Tuple[dict, dict, str]] = {
                                    "out = [v for v in range(6) if v < {p} and v <= {p}]\nacc = sum(1 for v in range(6) if v < {p} + 2 or v <= {p} + 2)\n"),
     # slices of sorted(..) whose bound is no literal: a negated name or call means "all but the last n", not "the n smallest"
     "sorted_slice_negated_name": ({"xs": "list", "n": "int"}, {"out": "list"},
-                                  "k = abs(n) % 3 + 1 + {p}\nout = sorted(xs)[:-k] + sorted(xs, reverse=True)[:-len([k])] + sorted(xs)[-k:] + sorted(xs)[:k]\n"),
+                                  "k = abs(n) % 2 + {p}\nout = sorted(xs)[:-k] + sorted(xs, reverse=True)[:-len([k])] + sorted(xs)[-k:] + sorted(xs)[:k]\n"),
     # a comprehension over a comprehension whose element does something: how often, and in which order, is it evaluated
     "effectful_comp_over_set_comp": ({"xs": "list"}, {"out": "list", "acc": "int"},
                                      "seen = []\n\n\ndef note(v):\n    seen.append(v)\n    return v % (3 + {p})\n\n\n"
                                      "first = {note(x) for x in {y % 5 for y in xs}}\nsecond = [note(x) for x in [y + 1 for y in xs]]\n"
-                                     "third = {note(x) for x in {y for y in xs} if x > {p}}\nout = sorted(first) + second + sorted(third)\nacc = len(seen)\n"),
+                                     "third = {note(x) for x in {y for y in xs} if x > {p}}\nfourth = {note(x) for x in {y for y in xs}}\n"
+                                     "out = sorted(first) + second + sorted(third) + sorted(fourth) + seen\nacc = len(seen)\n"),
     "with_nullcontext": ({"n": "int"}, {"acc": "int"}, "import contextlib\nwith contextlib.nullcontext(n + {p}) as got:\n    acc = got\n"),
 }
 
